@@ -70,6 +70,8 @@ def loop_property(pid, extra_note=None):
             note=extra_note or '',
         )
         out = dict(violations=vio, coverage=cov, assumptions=LOOP_ASSUMPTIONS)
+        if stats.get('unsupported'):
+            out['inconclusive'] = f"{len(stats['unsupported'])} configurations could not be executed completely: {stats['unsupported'][0]}"
         if stats['truncated']:
             out['inconclusive'] = f"{stats['truncated']} paths hit the MIR loop unrolling bound"
         return out
@@ -111,7 +113,17 @@ def _sys_sig(pid, x):
 
 def sys_property(pid, note=None, also_loop=False):
     def check(ctx):
-        res, stats = _sys(ctx)
+        from engine import Unsupported
+        sys_err = None
+        try:
+            res, stats = _sys(ctx)
+        except (Unsupported, RuntimeError, AssertionError, KeyError, IndexError, TypeError, ValueError, AttributeError, RecursionError) as ex:
+            if not also_loop:
+                raise
+            # the other level may still decide (a violation found there is reported; otherwise the check is inconclusive)
+            sys_err = f"system level could not be executed: {type(ex).__name__}: {ex}"
+            res, stats = {}, dict(paths=0, distinct_traces=0, steps=0, solver_calls=0, solver_s=0.0, samples=[], bound=0, truncated=0,
+                                  programs=[], functions=[], modelled={}, opaque={}, wall_s=0.0, shared_exploration_reused=False)
         vio = [dict(sig=_sys_sig(pid, x), msg=x['msg'], program=x['prog'], capacity=x.get('cap'),
                     native_confirmed=x.get('native_confirmed'), native_note=x.get('native_note'),
                     trace=[list(map(str, e)) for e in x['trace']], choices=x['choices']) for x in res.get(pid, [])]
@@ -128,19 +140,34 @@ def sys_property(pid, note=None, also_loop=False):
             opaque_calls=stats['opaque'], exploration_wall_s=round(stats['wall_s'], 1),
             shared_exploration_reused=stats['shared_exploration_reused'], exhaustive=False, note=note or '')
         out = dict(violations=vio, coverage=cov, assumptions=list(SYS_ASSUMPTIONS))
+        if sys_err:
+            out['inconclusive'] = sys_err
         if also_loop:
-            lres, lstats = _loop(ctx)
+            try:
+                lres, lstats = _loop(ctx)
+            except (Unsupported, RuntimeError, AssertionError, KeyError, IndexError, TypeError, ValueError, AttributeError, RecursionError) as ex:
+                if sys_err:
+                    raise
+                lres, lstats = {}, None
+                out['inconclusive'] = f"loop level could not be executed: {type(ex).__name__}: {ex}"
             for x in lres.get(pid, []):
                 vio.append(dict(sig=_sig(pid, x), msg=x['msg'], cfg=x['cfg'], trace=[list(map(str, e)) for e in x['trace']], choices=x['choices']))
-            cov['loop_level'] = dict(paths=lstats['paths'], solver_queries=lstats['solver_calls'], configurations=lstats['configs'])
-            cov['evaluations'] += lstats['paths']
-            cov['distinct_nontrivial'] += lstats.get('distinct_traces', 0)
-            cov['solver_queries'] += lstats['solver_calls']
-            out['assumptions'] += LOOP_ASSUMPTIONS
-            if lstats['truncated']:
-                out['inconclusive'] = f"{lstats['truncated']} loop-level paths hit the unrolling bound"
+            if lstats is not None:
+                cov['loop_level'] = dict(paths=lstats['paths'], solver_queries=lstats['solver_calls'], solver_s=round(lstats['solver_s'], 2), configurations=lstats['configs'])
+                cov['evaluations'] += lstats['paths']
+                cov['distinct_nontrivial'] += lstats.get('distinct_traces', 0)
+                cov['solver_queries'] += lstats['solver_calls']
+                cov['solver_s'] = round(cov['solver_s'] + lstats['solver_s'], 2)
+                out['assumptions'] += LOOP_ASSUMPTIONS
+                if lstats.get('unsupported'):
+                    out['inconclusive'] = f"{len(lstats['unsupported'])} loop-level configurations could not be executed completely: {lstats['unsupported'][0]}"
+                if lstats['truncated']:
+                    out['inconclusive'] = f"{lstats['truncated']} loop-level paths hit the unrolling bound"
         if stats['truncated']:
             out['inconclusive'] = f"{stats['truncated']} schedules hit the MIR loop unrolling bound"
+        if stats.get('unsupported'):
+            out['inconclusive'] = f"{len(stats['unsupported'])} programs could not be executed completely: {stats['unsupported'][0]}"
+            cov['programs_not_executed'] = stats['unsupported']
         if stats.get('native_mismatches'):
             out['inconclusive'] = f"model infidelity: {len(stats['native_mismatches'])} sampled schedules behave differently on the real crates: {stats['native_mismatches'][0]}"
         unconfirmed = [x for x in vio if x.get('native_confirmed') is False]
@@ -226,6 +253,6 @@ CHECKS = {
     'C03': sys_property('C03', also_loop=True),
     'C04': sys_property('C04', also_loop=True),
     'C07': sys_property('C07', also_loop=True),
-    'C11': loop_property('C11'),
-    'C13': loop_property('C13'),
+    'C11': sys_property('C11', also_loop=True),
+    'C13': sys_property('C13', also_loop=True),
 }
